@@ -7,6 +7,7 @@ normalised by C06.  Literals are kept as opaque source tokens.
 
 from __future__ import annotations
 
+import re
 from typing import Any
 
 from .lang import Node, P_PRIMARY, P_UNARY
@@ -62,7 +63,10 @@ def conv(t: Any, keep_parens: bool = False) -> Node:
         tok = ch[0]
         text = str(tok)
         neg = text.startswith("-")
-        return Node("raw", None, text, "U", P_UNARY if neg else P_PRIMARY, "literal:" + tok.type)
+        tag = "literal:" + tok.type
+        if tok.type in ("INT_LIT", "UINT_LIT", "FLOAT_LIT") and re.match(r"-?0\d", text):
+            tag += ":leading-zeros"
+        return Node("raw", None, text, "U", P_UNARY if neg else P_PRIMARY, tag)
     if d == "ident":
         return Node("var", None, str(ch[0]))
     if d == "dot_ident":
